@@ -10,6 +10,8 @@ import MagpyVerif.Lemmas.RelPose
 import MagpyVerif.Lemmas.Setters
 import MagpyVerif.Lemmas.OctaCarrier
 import MagpyVerif.Lemmas.OwnSensor
+import MagpyVerif.Lemmas.OwnSensorHist
+import MagpyVerif.Lemmas.HistoryCarrier
 import MagpyVerif.Lemmas.KernReal
 namespace MagpyVerif.C10
 open MagpyVerif Gen Spec
@@ -231,6 +233,129 @@ example : ∃ (t : Node ℤˣ ℤ) (ops : List (HOp ℝ ℤˣ ℤ)) (sc : Scipy 
    by intro d hd; simp [Node.objs] at hd; rcases hd with rfl | rfl <;> exact ⟨rfl, rfl⟩,
    by simp [Admissible, HOp.Adm, Op.addr, Op.WF, PathIn.WF],
    rfl⟩
+
+/-! ### histories with operations addressed to ANY node (abstract spec with the tree shape kept: Lemmas/HistoryAddr.lean)
+
+`HSpec`: the collection's frame and a FOREST of relative pose paths (one tree per direct child, shaped like the child's
+subtree, every path relative to the collection's frame); `absH` computes it, forgetting the shape gives `absColl` back.
+Abstract step `specStepH`: an operation addressed to the collection acts as before (`HSpec.rootStep`: frame by the
+single-object semantics, every path of the forest re-indexed by one map); an operation addressed to the descendant
+`i :: rest` acts on the `i`-th tree only — re-expressed as the abstract state of that child (`HSpec.toChild`: its absolute
+frame `compose frame rel`, its own subtree relative to IT), stepped at address `rest` by the same rule, and expressed in
+the collection's frame again (`HSpec.fromChild`); `add` / `remove` at any collection of the tree likewise.
+Admissible (`AdmissibleAt`): every operation inside the domain of `rotate`; an operation addressed to a descendant keeps the
+path length (else the members stop sharing one length and the property's quantifier no longer applies). -/
+
+/-- C10(j): **the abstraction commutes with every history, operations at any address, any nesting depth** (induction over
+the operation list, and for each operation over its address): the final tree abstracts to the fold of the abstract steps;
+the members again share one length ≥ 1; the flat abstraction of C10(f) is the same state with the shape forgotten; every
+history admissible for C10(f) is admissible here; every descendant IS the frame composed with its relative path. -/
+theorem history_refines_spec_any_address (sc : Scipy α G) (t : Node G V) (N : Nat) (hN : 1 ≤ N) (hU : Uniform N t)
+    (ops : List (HOp α G V)) (hadm : AdmissibleAt sc N ops) :
+    let t' := ops.foldl (Node.hstep sc) t
+    absH t' = ops.foldl (specStepH sc) (absH t) ∧
+    Uniform (histLen sc N ops) t' ∧ 1 ≤ histLen sc N ops ∧
+    absColl t' = ⟨(absH t').frame, (absH t').kids.map RTree.flat⟩ ∧
+    (∀ d ∈ t'.objs, compose t'.obj (relPath t'.obj d) = d) ∧
+    (∀ ops' : List (HOp α G V), Admissible sc N ops' → AdmissibleAt sc N ops') := by
+  intro t'
+  obtain ⟨h1, h2, h3⟩ := absH_history sc ops t N hN hU hadm
+  refine ⟨h1, h2, h3, absColl_eq_flat t', ?_, fun ops' h => Admissible.at sc ops' N h⟩
+  intro d hd
+  exact compose_relPath _ _ _ (h2 _ (Node.mem_objs_self t')) (h2 d hd)
+
+/-- C10(k): what the abstract step does for an operation addressed to a descendant, spelled out: the frame and every
+sibling tree are untouched ("operating on a child alone changes only that child"); the addressed child's tree is its own
+abstract state stepped at the rest of the address — in particular for `rest = []` the child's RELATIVE path becomes
+`relPath frame (objStep (compose frame rel) op)` and the child's own subtree follows it rigidly (re-indexed). -/
+theorem descendant_step_spelled_out (f : HSpec G V → HSpec G V) (s : HSpec G V) (i : Nat) (rest : List Nat) :
+    (HSpec.modifyAt f (i :: rest) s).frame = s.frame ∧
+    (∀ j, j ≠ i → (HSpec.modifyAt f (i :: rest) s).kids[j]? = s.kids[j]?) ∧
+    (HSpec.modifyAt f (i :: rest) s).kids[i]? =
+      s.kids[i]?.map (fun k => HSpec.fromChild s.frame (HSpec.modifyAt f rest (HSpec.toChild s.frame k))) ∧
+    (∀ (k : RTree (List (V × G))) (op : Op G V) (N' : Nat) (σ : Nat → Nat),
+      op.effect (compose s.frame k.val).pos.length = some (N', σ) →
+      HSpec.fromChild s.frame ((HSpec.toChild s.frame k).rootStep op) =
+        .mk (relPath s.frame (objStep (compose s.frame k.val) op))
+          (((HSpec.toChild s.frame k).kids.map (RTree.map (reindex σ N'))).map
+            (RTree.map fun r => relPath s.frame (compose (objStep (compose s.frame k.val) op) r)))) := by
+  refine ⟨rfl, ?_, ?_, ?_⟩
+  · intro j hj
+    simp only [HSpec.modifyAt, List.getElem?_mapIdx]
+    cases s.kids[j]? with
+    | none => rfl
+    | some k => simp [hj]
+  · simp only [HSpec.modifyAt, List.getElem?_mapIdx]
+    cases s.kids[i]? with
+    | none => rfl
+    | some k => simp
+  · intro k op N' σ he
+    have hf : (HSpec.toChild s.frame k).frame = compose s.frame k.val := rfl
+    simp only [HSpec.rootStep, hf, he, HSpec.fromChild]
+
+/-- C10(l) **history_index_map**: the index map of a history in closed form.  `histIdx sc N ops` is the composition of
+the per-operation maps (`i ↦ min (i − b) (N − 1)` for move / rotate / rotate_from_*, `psIndex` — end slicing or edge
+padding — for the setters, `i ↦ N − 1` for reset_path, the identity for operations addressed to descendants, add, remove and
+rejected calls), first operation outermost.  For every member (address `k :: m0`, any depth) that the history does not
+touch (`histTrack`: not removed, not addressed itself or through an ancestor below the collection; the address follows the
+removes), its object after the history is the collection's final pose path composed with its INITIAL relative path
+re-indexed by `histIdx`; pointwise: its pose in the collection frame at every final index `i` is its initial relative pose
+at index `histIdx … i`. -/
+theorem history_index_map (sc : Scipy α G) (t : Node G V) (N : Nat) (hN : 1 ≤ N) (hU : Uniform N t)
+    (ops : List (HOp α G V)) (hadm : AdmissibleAt sc N ops) (k : Nat) (m0 m' : List Nat) (d : Obj G V)
+    (htr : histTrack sc ops (k :: m0) = some m') (hd : t.objAt? (k :: m0) = some d) :
+    let t' := ops.foldl (Node.hstep sc) t
+    ∃ d', t'.objAt? m' = some d' ∧
+      d' = compose t'.obj (reindex (histIdx sc N ops) (histLen sc N ops) (relPath t.obj d)) ∧
+      (∀ i, i < histLen sc N ops → histIdx sc N ops i < N ∧ relAt t'.obj d' i = relAt t.obj d (histIdx sc N ops i)) := by
+  intro t'
+  obtain ⟨d', hd', hrel⟩ := objAt_history sc ops t N hN hU hadm k m0 m' d htr hd
+  obtain ⟨_, hU', _⟩ := absH_history sc ops t N hN hU hadm
+  refine ⟨d', hd', ?_, ?_⟩
+  · rw [← hrel]
+    exact (compose_relPath _ _ _ (hU' _ (Node.mem_objs_self t')) (hU' d' (Node.objAt?_mem _ _ _ hd'))).symm
+  · intro i hi
+    obtain ⟨_, _, h3, h4⟩ := relAt_history sc ops t N hN hU hadm d d' ⟨k, m0, m', htr, hd, hd'⟩ i hi
+    exact ⟨h3, h4⟩
+
+/-- the recursion `histIdx` is defined by, and the per-operation maps -/
+theorem histIdx_unfold (sc : Scipy α G) (N : Nat) (op : HOp α G V) (rest : List (HOp α G V)) (a : List Nat)
+    (inp : PathIn V) (rot : PathIn G) (an : Option (PathIn V)) (s : Option Int) (Y : List V) (Q : List G) :
+    histIdx sc N (op :: rest) = op.idx sc N ∘ histIdx sc (op.newLen sc N) rest ∧
+    histIdx sc N ([] : List (HOp α G V)) = id ∧
+    (HOp.base (.move [] inp s) : HOp α G V).idx sc N = (fun i => min (i - (window inp.isScalar N inp.lenip s).b) (N - 1)) ∧
+    (HOp.base (.rotate [] rot an s) : HOp α G V).idx sc N = (fun i => min (i - (rotWindow rot an N s).b) (N - 1)) ∧
+    (Y ≠ [] → (HOp.base (.setPos [] Y) : HOp α G V).idx sc N = psIndex N Y.length) ∧
+    (Q ≠ [] → (HOp.base (.setOri [] Q) : HOp α G V).idx sc N = psIndex N Q.length) ∧
+    (HOp.base (.reset []) : HOp α G V).idx sc N = (fun _ => N - 1) ∧
+    (a ≠ [] → (HOp.base (.move a inp s) : HOp α G V).idx sc N = id) := by
+  refine ⟨rfl, rfl, rfl, rfl, ?_, ?_, rfl, ?_⟩
+  · intro hY
+    have : Y.isEmpty = false := by cases Y <;> simp_all
+    simp [HOp.idx, Op.idx, Op.addr, Op.effect, this]
+  · intro hQ
+    have : Q.isEmpty = false := by cases Q <;> simp_all
+    simp [HOp.idx, Op.idx, Op.addr, Op.effect, this]
+  · intro ha
+    have : a.isEmpty = false := by cases a <;> simp_all
+    simp [HOp.idx, Op.idx, Op.addr, this]
+
+-- non-vacuity: a nested tree (collection ▸ sub-collection ▸ object, plus a second child), common length 2; the history
+-- moves the collection (scalar), moves the SUB-COLLECTION alone (scalar, keeps the length), appends a rotation of the
+-- collection and resets it: admissible; the second child (address [1]) is not touched and its index map is
+-- 0 ↦ min(0,1)=… composed: every final index shows the initial pose at index 1 (reset_path keeps the last pose)
+example : ∃ (t : Node ℤˣ ℤ) (ops : List (HOp ℝ ℤˣ ℤ)) (sc : Scipy ℝ ℤˣ),
+    Uniform 2 t ∧ AdmissibleAt sc 2 ops ∧ histTrack sc ops [1] = some [1] ∧ histTrack sc ops [0, 0] = none ∧
+    (∃ d, t.objAt? [1] = some d) ∧ histLen sc 2 ops = 1 ∧ histIdx sc 2 ops 0 = 1 := by
+  refine ⟨.mk ⟨[1, 2], [1, -1]⟩ [.mk ⟨[5, 6], [1, 1]⟩ [.mk ⟨[7, 8], [-1, 1]⟩ []], .mk ⟨[0, 0], [-1, 1]⟩ []],
+   [.base (.move [] (.scalar 3) none), .base (.move [0] (.scalar 4) none),
+    .base (.rotate [] (.vector [-1]) none none), .base (.reset [])],
+   ⟨fun _ => 1, fun _ => some 1, fun _ => 1, fun _ => some 1⟩, ?_, ?_, by decide, by decide, ⟨_, rfl⟩, by decide, by decide⟩
+  · intro d hd; simp [Node.objs] at hd; rcases hd with rfl | rfl | rfl | rfl <;> exact ⟨rfl, rfl⟩
+  · refine ⟨⟨trivial, fun h => absurd rfl h⟩, ⟨trivial, fun _ => by decide⟩, ⟨⟨?_, ?_⟩, fun h => absurd rfl h⟩,
+      ⟨trivial, fun h => absurd rfl h⟩, trivial⟩
+    · simp [PathIn.WF]
+    · intro a ha; cases ha
 end histories
 
 /-! ### the collection's field seen by one of its own sensors -/
@@ -296,6 +421,51 @@ example : ∃ (o : Obj ℤˣ ℤ) (cs : List (Node ℤˣ ℤ)) (srcs : List (Obj
    ⟨[0, 0], [-1, 1]⟩,
    by intro d hd; simp [Node.objs] at hd; rcases hd with rfl | rfl | rfl <;> exact ⟨rfl, rfl⟩,
    by simp [Node.objs], by simp [Node.objs], by simp, by simp [PathIn.WF], by decide⟩
+
+/-- C10(m) **own_sensor_reading_invariant_history**: a collection tree (members sharing the path length `N`) holding
+source objects (each with an ARBITRARY local field function) and a sensor at any depth.  After every admissible history —
+move / rotate / the six rotate_from_* entry points / position= / orientation= / reset_path / rejected calls / add / remove,
+each addressed to ANY node — that leaves these members where they are (`TrackedMember`: not removed, not addressed
+themselves or through an ancestor below the collection; the collection itself may be operated on at will, other members too),
+the sensor reads at every final path index `i`, pixel by pixel, what it read before the history at index
+`histIdx sc N ops i` (C10(l)).  Over an arbitrary group `G` acting on an additive group `V` by additive maps; no hypothesis
+on the field functions. -/
+theorem own_sensor_reading_invariant_history {α : Type} [Kern.Num α] (flipX : V → V) (sc : RotFrom.Scipy α G)
+    (t : Node G V) (N : Nat) (hN : 1 ≤ N) (hU : Uniform N t) (ops : List (HOp α G V)) (hadm : AdmissibleAt sc N ops)
+    (srcs srcs' : List (Obj G V × (V → V))) (ks ks' : Obj G V) (pixels : List V) (pixShape : List Nat) (left : Bool)
+    (hs : List.Forall₂ (fun a b => b.2 = a.2 ∧ TrackedMember sc ops t a.1 b.1) srcs srcs')
+    (hk : TrackedMember sc ops t ks ks') (i : Nat) (hi : i < histLen sc N ops) :
+    histIdx sc N ops i < N ∧
+    reading flipX (entryOf srcs') (sensOf ks' pixels pixShape left) i =
+      reading flipX (entryOf srcs) (sensOf ks pixels pixShape left) (histIdx sc N ops i) :=
+  ⟨histIdx_lt sc ops N hN hadm i hi,
+   reading_history flipX sc ops t N hN hU hadm srcs srcs' ks ks' pixels pixShape left hs hk i hi⟩
+
+/-- the hypothesis `TrackedMember` is satisfiable whenever the address survives the history: the member then exists
+after the history (with the pose C10(l) gives) -/
+theorem tracked_member_exists {α : Type} [Kern.Num α] (sc : RotFrom.Scipy α G) (t : Node G V) (N : Nat) (hN : 1 ≤ N)
+    (hU : Uniform N t) (ops : List (HOp α G V)) (hadm : AdmissibleAt sc N ops) (k : Nat) (m0 m' : List Nat) (d : Obj G V)
+    (htr : histTrack sc ops (k :: m0) = some m') (hd : t.objAt? (k :: m0) = some d) :
+    ∃ d', TrackedMember sc ops t d d' := by
+  obtain ⟨d', hd', _⟩ := objAt_history sc ops t N hN hU hadm k m0 m' d htr hd
+  exact ⟨d', k, m0, m', htr, hd, hd'⟩
+
+-- non-vacuity: the reflection group ℤˣ on ℤ; a collection holding a source (field x ↦ 2x + 1) at address [0] and a sensor
+-- at address [1], common path length 2; history: scalar move of the collection, then a rotation appended to it (length 3):
+-- the history is admissible, both members are tracked, final indices 0, 1, 2 show the initial indices 0, 1, 1
+example : ∃ (t : Node ℤˣ ℤ) (ops : List (HOp ℝ ℤˣ ℤ)) (sc : RotFrom.Scipy ℝ ℤˣ) (d k : Obj ℤˣ ℤ),
+    Uniform 2 t ∧ AdmissibleAt sc 2 ops ∧ (∃ d', TrackedMember sc ops t d d') ∧ (∃ k', TrackedMember sc ops t k k') ∧
+    d ≠ k ∧ histLen sc 2 ops = 3 ∧ (List.range 3).map (histIdx sc 2 ops) = [0, 1, 1] := by
+  have hU : Uniform 2 (Node.mk (G := ℤˣ) (V := ℤ) ⟨[1, 2], [1, -1]⟩ [.mk ⟨[5, 6], [1, 1]⟩ [], .mk ⟨[0, 0], [-1, 1]⟩ []]) := by
+    intro d hd; simp [Node.objs] at hd; rcases hd with rfl | rfl | rfl <;> exact ⟨rfl, rfl⟩
+  have hadm : AdmissibleAt (α := ℝ) (G := ℤˣ) (V := ℤ) ⟨fun _ => 1, fun _ => some 1, fun _ => 1, fun _ => some 1⟩ 2
+      [.base (.move [] (.scalar 3) none), .base (.rotate [] (.vector [-1]) none none)] := by
+    refine ⟨⟨trivial, fun h => absurd rfl h⟩, ⟨⟨?_, ?_⟩, fun h => absurd rfl h⟩, trivial⟩
+    · simp [PathIn.WF]
+    · intro a ha; cases ha
+  exact ⟨_, _, _, ⟨[5, 6], [1, 1]⟩, ⟨[0, 0], [-1, 1]⟩, hU, hadm,
+    tracked_member_exists _ _ 2 (by decide) hU _ hadm 0 [] [0] _ (by decide) rfl,
+    tracked_member_exists _ _ 2 (by decide) hU _ hadm 1 [] [1] _ (by decide) rfl, by decide, by decide, by decide⟩
 end ownSensor
 
 /-! ### on the carrier the driver computes with (AUDIT X1)
@@ -384,6 +554,58 @@ example :
     relAt (applyRotation (.scalar rotZ90) (some (.scalar ⟨0, 3, 0⟩)) none none o)
         (applyRotation (.scalar rotZ90) (some (.scalar ⟨0, 3, 0⟩)) none (some o.pos) d) 1 = relAt o d 1 ∧
     relAt o d 1 = some (⟨0, -4, 1⟩, ⟨⟨0, 1, 0⟩, ⟨-1, 0, 0⟩, ⟨0, 0, 1⟩⟩ * rotX90) := by decide
+
+/-- **C10(l) `history_index_map` on the driver's carrier**: histories of base operations addressed to ANY node (a
+`rotate_from_*` step is such a step by C09(j); `add` / `remove` compute nothing), octahedral rotation inputs, evaluated with
+the integer matrix operations (`Node.step` at `M3 Int`, what the `path` driver family runs).  `opsLen` / `opsIdx` /
+`opsTrack` / `OpsAdm` are `histLen` / `histIdx` / `histTrack` / `AdmissibleAt` written without any structure on the
+rotation carrier (Lemmas/HistoryCarrier.lean: `histIdx_base` …).  For every member the history does not touch: it is
+still there, all members share the length `opsLen N ops`, and its pose relative to the collection (`relAt`, computed
+with `⁻¹` = transpose) at every final index `i` is the initial one at index `opsIdx N ops i`. -/
+theorem history_index_map_on_driver_carrier (t : NodeZ) (ops : List OpZ) (ht : t.RotsOct)
+    (hops : ∀ op ∈ ops, op.RotsOct) (N : Nat) (hN : 1 ≤ N) (hU : Uniform N t) (hadm : OpsAdm N ops)
+    (k : Nat) (m0 m' : List Nat) (d : ObjZ) (htr : opsTrack ops (k :: m0) = some m')
+    (hd : t.objAt? (k :: m0) = some d) :
+    ∃ d', (ops.foldl Node.step t).objAt? m' = some d' ∧ Uniform (opsLen N ops) (ops.foldl Node.step t) ∧
+      ∀ i, i < opsLen N ops → opsIdx N ops i < N ∧
+        relAt (ops.foldl Node.step t).obj d' i = relAt t.obj d (opsIdx N ops i) :=
+  relAt_history_on_driver_carrier t ops ht hops N hN hU hadm k m0 m' d htr hd
+
+-- non-vacuity, driver-style data: collection ▸ (sub-collection ▸ object), second child; the collection is moved (vector
+-- input appended: length 2 → 3), the sub-collection alone is moved (scalar), the collection is rotated by 90° about z
+-- (scalar): admissible, the second child is tracked, final indices 0, 1, 2 show the initial indices 0, 1, 1
+open Level2.DriverExample in
+example :
+    let t : NodeZ := .mk ⟨[⟨1, 0, 0⟩, ⟨2, 0, 0⟩], [1, rotZ90]⟩
+      [.mk ⟨[⟨5, 0, 1⟩, ⟨6, 0, 1⟩], [rotX90, rotX90]⟩ [.mk ⟨[⟨7, 0, 0⟩, ⟨8, 0, 0⟩], [1, 1]⟩ []],
+       .mk ⟨[⟨0, 3, 0⟩, ⟨0, 4, 0⟩], [rotZ90, 1]⟩ []]
+    let ops : List OpZ := [.move [] (.vector [⟨0, 0, 1⟩]) none, .move [0] (.scalar ⟨0, 2, 0⟩) none,
+      .rotate [] (.scalar rotZ90) (some (.scalar ⟨0, 3, 0⟩)) none]
+    Uniform 2 t ∧ t.RotsOct ∧ (∀ op ∈ ops, op.RotsOct) ∧ OpsAdm 2 ops ∧ opsTrack ops [1] = some [1] ∧
+      opsTrack ops [0, 0] = none ∧ opsLen 2 ops = 3 ∧ (List.range 3).map (opsIdx 2 ops) = [0, 1, 1] := by
+  refine ⟨?_, ?_, ?_, ?_, by decide, by decide, by decide, by decide⟩
+  · intro d hd
+    simp [Node.objs] at hd
+    rcases hd with rfl | rfl | rfl | rfl <;> exact ⟨rfl, rfl⟩
+  · refine .mk (by simp only [Obj.RotsOct, List.mem_cons, List.not_mem_nil, or_false, forall_eq_or_imp, forall_eq]; decide) ?_
+    intro c hc
+    simp only [List.mem_cons, List.not_mem_nil, or_false] at hc
+    rcases hc with rfl | rfl
+    · refine .mk (by simp only [Obj.RotsOct, List.mem_cons, List.not_mem_nil, or_false, forall_eq_or_imp, forall_eq]; decide) ?_
+      intro c hc
+      simp only [List.mem_cons, List.not_mem_nil, or_false] at hc
+      subst hc
+      exact .mk (by simp only [Obj.RotsOct, List.mem_cons, List.not_mem_nil, or_false, forall_eq_or_imp, forall_eq]; decide) (by simp)
+    · exact .mk (by simp only [Obj.RotsOct, List.mem_cons, List.not_mem_nil, or_false, forall_eq_or_imp, forall_eq]; decide) (by simp)
+  · intro op hop
+    simp only [List.mem_cons, List.not_mem_nil, or_false] at hop
+    rcases hop with rfl | rfl | rfl <;> simp only [Op.RotsOct, Op.rots, List.not_mem_nil, false_imp_iff, implies_true]
+    simp only [PathIn.toList, List.mem_cons, List.not_mem_nil, or_false, forall_eq]
+    decide
+  · refine ⟨⟨trivial, fun h => absurd rfl h⟩, ⟨trivial, fun _ => by decide⟩, ⟨⟨trivial, ?_⟩, fun h => absurd rfl h⟩, trivial⟩
+    intro a ha
+    cases ha
+    trivial
 end driverCarrier
 
 end MagpyVerif.C10
